@@ -101,7 +101,7 @@ example : (match (releaseRes (some { free := [6], inv := [(77, 5)] }) { offset :
 /-! ### along every history (BESS agent model, any number of associations; `Agent.inv_teid_run`) -/
 
 /-- **no TEID and no table entry is ever leaked**: from start-up on, after every request of every history in the envelope
-(establishments accepted or refused at any point, deletions, reports "context not found", association endings, FAR-updating modifications), a TEID is in use
+(establishments accepted or refused at any point, deletions, reports "context not found", association endings, FAR-updating and rule-removing modifications), a TEID is in use
 in the allocator only if a stored session's PDR holds it, and a key is present in a lookup table only if a stored session has it -/
 theorem nothing_leaks_along_every_history (cfg : Cfg) (pool : Option Pool.P) (g : Teid.G) (hg : g.offset < M)
     (hfresh : ∀ x, g.used x = false) (evs : List Ev) (henv : EnvOK cfg { pool := pool, teid := g } evs) :
